@@ -225,6 +225,7 @@ PARTS = {
     ],
     "C03": [
         (PY, "c03_py_capacity", dict()),
+        (PY, "c02_py_converters", dict()),   # NDJSON converters + NDJsonProtocolReader line look-ahead (binary <-> NDJSON copies)
         C14_PART,
         C02_UNION3_PART,
     ],
@@ -279,6 +280,7 @@ PARTS = {
     ],
     "C18": [
         (G, "gosym_part", dict(name="c18_graph", entry="pkg/packaging.VerifC18Graph", args_quick=(3, 2), args_thorough=(3, 3),
+                               extra_quick=("-max-paths", "100000"), extra_thorough=("-max-paths", "2000000"),
                                required_sites=("terminates-without-panic", "cycle-or-conflict-rejected", "acyclic-accepted", "each-reachable-once"),
                                assumptions=C18_ASSUME,
                                desc="LoadPackage on every import multigraph over n packages (args: n, max out-degree) with symbolic namespaces: "
